@@ -38,7 +38,8 @@ ASSUMPTIONS = [
 ]
 
 TB_NAME = re.compile(r"^traceback(-\d+)*$")
-TRACEBACK_KINDS = {"fail", "error", "failsub", "mismatch", "kbd", "exit", "kbdsub", "exitsub", "xfail"}
+TRACEBACK_KINDS = {"fail", "error", "failsub", "mismatch", "kbd", "exit", "kbdsub", "exitsub", "xfail",
+                   "eqexc", "sameobj"}
 
 
 def x_prog(ctx, case):
@@ -180,10 +181,15 @@ def _one_run(ctx, case, shared, second=False):
         needle = ("mismatch-%s" % tok if kind == "mismatch" else tok).encode()
         hits = [n for n, v in tb.items() if needle in v]
         fixture_tok = tok.startswith("FX")
-        ok = len(hits) >= 1 if fixture_tok else len(hits) == 1
+        # exceptions that compare equal / the same object raised by several stages share a token:
+        # one traceback per RAISE
+        n_raises = sum(1 for k2, t2, _ in env.raised if t2 == tok)
+        ok = len(hits) >= 1 if fixture_tok else len(hits) == n_raises
+        n_lost = sum(1 for lp in lost_payloads if needle in lp)
         ctx.check(ok, "traceback.one-per-raised-failure",
-                  lambda: {"kind": kind, "token": tok, "hits": hits, **detail()},
-                  mechanism="user-adddetail-over-generated-name" if (not hits and excused(needle)) else None)
+                  lambda: {"kind": kind, "token": tok, "hits": hits, "raises": n_raises, **detail()},
+                  mechanism="user-adddetail-over-generated-name"
+                  if (n_lost and ((fixture_tok and not hits) or len(hits) + n_lost == n_raises)) else None)
     # ---- (f) addOnException handlers ---------------------------------------------------------------
     raise_events = env.tags("raise")
     regs = {} if second else {e[2]: e[0] for e in env.tags("onexc_reg")}
@@ -193,7 +199,8 @@ def _one_run(ctx, case, shared, second=False):
                 continue
             nontrivial = True
             calls = [c for c in env.onexc_calls if c[1] == hid and c[2] is exc]
-            ctx.check(len(calls) == 1 and calls[0][0] < out.seq, "onexc.called-once-before-outcome",
+            n_same = sum(1 for (k2, t2, e2), r2 in zip(env.raised, raise_events) if e2 is exc and r2[0] >= reg_seq)
+            ctx.check(len(calls) == n_same and all(c[0] < out.seq for c in calls), "onexc.called-once-before-outcome",
                       lambda: {"handler": hid, "exception": (kind, tok), "calls": len(calls),
                                "call_seq": [c[0] for c in calls], "outcome_seq": out.seq, **detail()})
     # ---- nothing delivered twice ----------------------------------------------------------------
@@ -233,7 +240,7 @@ def _details_attached(spec, f, fid):
 SUBCHECKS = {"prog": x_prog, "rerun": x_rerun}
 
 FEATURES = ("details", "expect", "mismatch_details", "fixture", "onexc", "nested_cleanup", "decor",
-            "own_exc", "force")
+            "own_exc", "force", "clone", "eq_exc", "peek")
 
 
 def _sanitise(prog):
